@@ -155,6 +155,8 @@ pub unsafe fn sse_fft_helper_immut<T>(
     required_scratch: usize,
     chunk_fn: impl FnMut(&[T], &mut [T], &mut [T]),
 ) {
+    #[cfg(feature = "verif_hooks")]
+    crate::verif_hooks::simd_entry(crate::verif_hooks::CPU_SSE41);
     fft_helper_immut(
         input,
         output,
@@ -176,6 +178,8 @@ pub unsafe fn sse_fft_helper_outofplace<T>(
     required_scratch: usize,
     chunk_fn: impl FnMut(&mut [T], &mut [T], &mut [T]),
 ) {
+    #[cfg(feature = "verif_hooks")]
+    crate::verif_hooks::simd_entry(crate::verif_hooks::CPU_SSE41);
     fft_helper_outofplace(
         input,
         output,
@@ -196,6 +200,8 @@ pub unsafe fn sse_fft_helper_inplace<T>(
     required_scratch: usize,
     chunk_fn: impl FnMut(&mut [T], &mut [T]),
 ) {
+    #[cfg(feature = "verif_hooks")]
+    crate::verif_hooks::simd_entry(crate::verif_hooks::CPU_SSE41);
     fft_helper_inplace(buffer, scratch, chunk_size, required_scratch, chunk_fn)
 }
 
@@ -209,6 +215,8 @@ pub unsafe fn sse_fft_helper_immut_unroll2x<T>(
     chunk2x_fn: impl FnMut(&[T], &mut [T]),
     chunk_fn: impl FnMut(&[T], &mut [T]),
 ) {
+    #[cfg(feature = "verif_hooks")]
+    crate::verif_hooks::simd_entry(crate::verif_hooks::CPU_SSE41);
     fft_helper_immut_unroll2x(input, output, chunk_size, chunk2x_fn, chunk_fn)
 }
 
@@ -222,6 +230,8 @@ pub unsafe fn sse_fft_helper_outofplace_unroll2x<T>(
     chunk2x_fn: impl FnMut(&mut [T], &mut [T]),
     chunk_fn: impl FnMut(&mut [T], &mut [T]),
 ) {
+    #[cfg(feature = "verif_hooks")]
+    crate::verif_hooks::simd_entry(crate::verif_hooks::CPU_SSE41);
     fft_helper_outofplace_unroll2x(input, output, chunk_size, chunk2x_fn, chunk_fn)
 }
 
@@ -234,5 +244,7 @@ pub unsafe fn sse_fft_helper_inplace_unroll2x<T>(
     chunk2x_fn: impl FnMut(&mut [T]),
     chunk_fn: impl FnMut(&mut [T]),
 ) {
+    #[cfg(feature = "verif_hooks")]
+    crate::verif_hooks::simd_entry(crate::verif_hooks::CPU_SSE41);
     fft_helper_inplace_unroll2x(buffer, chunk_size, chunk2x_fn, chunk_fn)
 }
